@@ -362,7 +362,17 @@ pub fn random_ir(t: &mut Tape) -> Value {
     for i in 0..n {
         let kind = *t.pick(&["enum", "alias", "object", "object", "union"]);
         let base = *t.pick(&["Thing", "Type", "Self", "Node", "Option", "Result", "Box", "Vec", "Item", "Error"]);
-        g.names.push((format!("{}{}", base, i), t.pick(&packages).to_string(), kind));
+        let pkg = t.pick(&packages).to_string();
+        let mut name = format!("{}{}", base, i);
+        // now and then two packages declare a type of the same simple name (legal Conjure: the
+        // type table is keyed by package + name); the pair (name, package) stays unique
+        if i > 0 && t.chance(1, 3) {
+            let (other, other_pkg, _) = g.names[t.draw(i as u64) as usize].clone();
+            if other_pkg != pkg && !g.names.iter().any(|(n, p, _)| *n == other && *p == pkg) {
+                name = other;
+            }
+        }
+        g.names.push((name, pkg, kind));
     }
     let mut types = Vec::new();
     for i in 0..n {
